@@ -248,18 +248,10 @@ func ruleC05All(p *Prog, r *Result) {
 				}
 				if w == "bkl.yamlMarshalStream" && guardPol(pa, "kind", mElemOf(vs), "nil") == 1 {
 					// empty document: separator unless first
-					first := 0
-					for _, g := range pa.Guards {
-						if g.Kind == "truth" && g.A.Op == "carried" {
-							first = 1
-							if g.Neg {
-								first = -1
-							}
-						}
-					}
+					first := firstness(pr, pa)
 					wrote := false
 					for _, e := range pa.Effects {
-						if e.Callee == "(*bytes.Buffer).Write" && len(e.Loops) > 0 {
+						if (e.Callee == "(*bytes.Buffer).Write" || e.Callee == "(*bytes.Buffer).WriteString") && len(e.Loops) > 0 {
 							wrote = true
 						}
 					}
@@ -302,55 +294,7 @@ func ruleC05All(p *Prog, r *Result) {
 	// toml writer: separator before every document but the first
 	pt := newPSRule(p, r, "C05.all", "bkl.tomlMarshalStream", PSOpts{})
 	pt.all("TOML: a separator precedes every document except the first", selectPaths(pt.paths, func(pa *Path) bool { return pa.End == "iter" }), "first -> no separator; later -> separator then Encode", func(pa *Path) (bool, string) {
-		first := 0
-		for _, g := range pa.Guards {
-			if g.Kind == "truth" && g.A.Op == "carried" {
-				// a flag: starts true and is only ever cleared ("first"), or starts false and is only ever set ("seen one")
-				info := pt.carried[g.A.N]
-				allSrc := func(want string) bool {
-					for _, s := range info.Src {
-						if !s.IsConst(want) {
-							return false
-						}
-					}
-					return len(info.Src) > 0
-				}
-				switch {
-				case info.Init != nil && info.Init.IsConst("true") && allSrc("false"):
-					first = 1
-					if g.Neg {
-						first = -1
-					}
-				case info.Init != nil && info.Init.IsConst("false") && allSrc("true"):
-					first = -1
-					if g.Neg {
-						first = 1
-					}
-				}
-			}
-			// or the position in the stream: i > 0, i != 0, i >= 1 (later) and their negations (first)
-			if g.Kind == "cmp" && g.A != nil && g.A.Op == "idx" && g.B != nil && g.B.Op == "const" {
-				later := 0
-				switch {
-				case g.Const == ">" && g.B.Name == "0", g.Const == ">=" && g.B.Name == "1":
-					later = 1
-				case g.Const == "<" && g.B.Name == "1", g.Const == "<=" && g.B.Name == "0":
-					later = -1
-				}
-				if g.Neg {
-					later = -later
-				}
-				if later != 0 {
-					first = -later
-				}
-			}
-			if g.Kind == "eq" && g.A != nil && g.A.Op == "idx" && g.B != nil && g.B.IsConst("0") {
-				first = 1
-				if g.Neg {
-					first = -1
-				}
-			}
-		}
+		first := firstness(pt, pa)
 		wi, ei := -1, -1
 		for i, e := range pa.Effects {
 			if e.Callee == "(*bytes.Buffer).Write" || e.Callee == "(*bytes.Buffer).WriteString" {
@@ -477,4 +421,60 @@ func ruleC05File(p *Prog, r *Result) {
 			"an output file is opened for writing without O_TRUNC: when the path already holds a longer file, its tail stays behind the new output, which then does not read back as the evaluated stream")
 	}
 	r.Floor("C05.file", "output files opened by the library", n, 1)
+}
+
+// firstness: is this iteration known to be the first one of the stream (1), a later one (-1), or is that not
+// decided on the path (0)? Recognised through a monotone flag (starts true and is only cleared, or starts
+// false and is only set) or through a test of the position (i > 0, i == 0, ...).
+func firstness(pt *psRule, pa *Path) int {
+	first := 0
+	for _, g := range pa.Guards {
+		if g.Kind == "truth" && g.A.Op == "carried" {
+			// a flag: starts true and is only ever cleared ("first"), or starts false and is only ever set ("seen one")
+			info := pt.carried[g.A.N]
+			allSrc := func(want string) bool {
+				for _, s := range info.Src {
+					if !s.IsConst(want) {
+						return false
+					}
+				}
+				return len(info.Src) > 0
+			}
+			switch {
+			case info.Init != nil && info.Init.IsConst("true") && allSrc("false"):
+				first = 1
+				if g.Neg {
+					first = -1
+				}
+			case info.Init != nil && info.Init.IsConst("false") && allSrc("true"):
+				first = -1
+				if g.Neg {
+					first = 1
+				}
+			}
+		}
+		// or the position in the stream: i > 0, i != 0, i >= 1 (later) and their negations (first)
+		if g.Kind == "cmp" && g.A != nil && g.A.Op == "idx" && g.B != nil && g.B.Op == "const" {
+			later := 0
+			switch {
+			case g.Const == ">" && g.B.Name == "0", g.Const == ">=" && g.B.Name == "1":
+				later = 1
+			case g.Const == "<" && g.B.Name == "1", g.Const == "<=" && g.B.Name == "0":
+				later = -1
+			}
+			if g.Neg {
+				later = -later
+			}
+			if later != 0 {
+				first = -later
+			}
+		}
+		if g.Kind == "eq" && g.A != nil && g.A.Op == "idx" && g.B != nil && g.B.IsConst("0") {
+			first = 1
+			if g.Neg {
+				first = -1
+			}
+		}
+	}
+	return first
 }
